@@ -322,6 +322,22 @@ func runCut(c driver.Case) driver.Result {
 			}
 			tu = rec.Tick()
 		} else {
+			// hand-off operators run the observer (and so the Unsubscribe inside it) on their own goroutine:
+			// wait until that call has returned - or is proven to hang
+			st, dump, _ := quiesce.Call(func() {
+				for tuInside.Load() == 0 {
+					time.Sleep(100 * time.Microsecond)
+				}
+			}, 10*time.Second)
+			if st == quiesce.Hung {
+				res.Verdict, res.Key, res.Dirty = driver.Violated, "C06/hang/"+quiesce.BlockedSite(dump), true
+				res.Msg = what + ": Unsubscribe called inside the callback never returned; all goroutines blocked"
+				res.Witness = dump
+				return res
+			}
+			if st != quiesce.Returned {
+				return driver.Result{Verdict: driver.Inconclusive, Key: "unsubscribe-inside-did-not-return", Dirty: true}
+			}
 			tu = tuInside.Load()
 		}
 	case "cut-mid":
@@ -369,7 +385,13 @@ func runCut(c driver.Case) driver.Result {
 	if st == quiesce.Hung {
 		res.Dirty = true
 		res.Witness = dump
-		return fail("wait-blocks-on-closed-subscription", "Wait() does not return although the subscription is closed; all goroutines blocked")
+		// Wait waits for the goroutine that is running the release; named by the site where that one is
+		// stuck, so that a recorded deadlock (GroupBy's teardown) is recognised and any other one is not
+		r2 := fail("wait-blocks-on-closed-subscription", "Wait() does not return although the subscription is closed; all goroutines blocked ("+quiesce.BlockedSite(dump)+")")
+		if site := quiesce.BlockedSite(dump); strings.HasSuffix(site, "(mutex)") {
+			r2.Key = "C06/hang/" + site
+		}
+		return r2
 	}
 	// repeated Unsubscribe is harmless
 	func() { defer func() { pan = recover() }(); sub.Unsubscribe(); sub.Unsubscribe() }()
